@@ -186,81 +186,131 @@ def run(repo, tier):
     has_like = any(dotted(e) == f"{LIKE}.key" for e in elts)
     r.ob("R7.2", "expr.py::Expr._compute_serialized constant key contains like.key", has_like, "constant key lost the key of the like operand (reference type)", loc(rel, cv))
     val_elts = [e for e in elts if VAL in _names(e)]
-    if len(val_elts) != 1:
-        raise AnalysisError("constant key: value component not recognised")
-    ve = val_elts[0]
-    # a helper function that builds the value part of the key is followed into its body
-    if isinstance(ve, ast.Call) and isinstance(ve.func, ast.Name) and len(ve.args) == 1 and dotted(ve.args[0]) == VAL and repo.has(rel, ve.func.id):
-        helper = repo.func(rel, ve.func.id)
-        hp = [a.arg for a in helper.args.args]
-        body = [st for st in helper.body if not (isinstance(st, ast.Expr) and isinstance(st.value, ast.Constant))]
-        expr_ = None
-        if len(hp) == 1 and len(body) == 1 and isinstance(body[0], ast.Return):
-            expr_ = body[0].value
-        elif len(hp) == 1 and len(body) == 2 and isinstance(body[0], ast.If) and not body[0].orelse and len(body[0].body) == 1 \
-                and isinstance(body[0].body[0], ast.Return) and isinstance(body[1], ast.Return):
-            expr_ = ast.IfExp(test=body[0].test, body=body[0].body[0].value, orelse=body[1].value)
-        if expr_ is None:
-            raise AnalysisError(f"constant key: helper {ve.func.id} is not a single-expression function")
+    if not val_elts:
+        # the value part built beforehand, statement by statement: `if isinstance(value, Expr): vk = value.key  elif ...: vk = (...)  else: vk = (...)`
+        # - every arm is judged like the inline form; a local used inside an arm stands for its definition
+        cand = [e for e in elts if isinstance(e, ast.Name)]
+        arms = []
+        for e in cand:
+            defs = [st.value for b_ in branches["constant"] for st in ast.walk(b_) if isinstance(st, ast.Assign) and any(isinstance(t_, ast.Name) and t_.id == e.id for t_ in st.targets)]
+            if defs and any(VAL in _names(d_) or any(isinstance(x, ast.Name) for x in ast.walk(d_)) for d_ in defs):
+                arms = defs
+                break
+        if not arms:
+            raise AnalysisError("constant key: value component not recognised")
         from sa.core import fresh_copy, _Renamer
-        ve = _Renamer({hp[0]: VAL}).visit(fresh_copy(expr_))
-        ast.fix_missing_locations(ve)
-        for n_ in ast.walk(ve):
-            n_.lineno = getattr(helper, "lineno", 0)
-    plain = ve.orelse if isinstance(ve, ast.IfExp) else ve
-    if isinstance(ve, ast.IfExp):
-        ok = dotted(ve.body) == f"{VAL}.key" and f"isinstance({VAL}, Expr)" in norm_src(ve.test)
-        r.ob("R7.2", "expr.py::Expr._compute_serialized constant value that is an expression uses its key", ok, f"`{norm_src(ve)}`", loc(rel, ve))
-    comps = plain.elts if isinstance(plain, ast.Tuple) else [plain]
-    has_type = any(f"type({VAL})" in norm_src(c) for c in comps)
-    r.ob("R7.2", "expr.py::Expr._compute_serialized constant key contains the value's type", has_type,
-         "the key of a constant no longer contains type(value): 1, 1.0 and True hash and compare equal", loc(rel, plain))
-    encoders = []
-    conditional = []
-    raw = False
-    repo_encoders = []
-    for c in comps:
-        # an encoder defined in the repository itself (toidentifier): the key is as injective as that function
-        if isinstance(c, ast.Call) and isinstance(c.func, ast.Name) and c.func.id == "toidentifier" and len(c.args) == 1 and dotted(c.args[0]) == VAL and repo.has(rel, "toidentifier"):
-            repo_encoders.append(c.func.id)
-    if repo_encoders:
-        from rules.C05 import check_toidentifier
+        local_defs = {}
+        for b_ in branches["constant"]:
+            for st in ast.walk(b_):
+                if isinstance(st, ast.Assign) and len(st.targets) == 1 and isinstance(st.targets[0], ast.Name):
+                    local_defs.setdefault(st.targets[0].id, []).append(st.value)
 
-        before = len(r.obligations)
-        check_toidentifier(r, repo, "R7.1")
-        if len(r.obligations) == before:
-            raise AnalysisError("constant key uses toidentifier but its injectivity obligations were not generated")
-        encoders += repo_encoders
-    for c in comps:
-        if isinstance(c, ast.Name) and c.id == VAL:
-            raw = True
-            continue
-        if f"type({VAL})" in norm_src(c):
-            continue
-        # an encoding counts only when it is applied unconditionally: the tuple element itself is the encoder call
-        if isinstance(c, ast.Call):
-            nm = call_name(c) or ""
-            last = nm.split(".")[-1]
-            on_value = any(VAL in _names(a) for a in c.args) or (isinstance(c.func, ast.Attribute) and VAL in _names(c.func.value))
-            if (nm in INJECTIVE_ENCODERS or last in INJECTIVE_ENCODERS) and on_value and not any(isinstance(x, (ast.IfExp, ast.BoolOp)) for x in ast.walk(c)):
-                encoders.append(nm)
+        class _Inl(ast.NodeTransformer):
+            def visit_Name(self, n):
+                d_ = local_defs.get(n.id)
+                if isinstance(n.ctx, ast.Load) and d_ and len(d_) == 1 and n.id not in (VAL, LIKE):
+                    return self.visit(fresh_copy(d_[0]))
+                return n
+
+        n_arm = 0
+        for arm in arms:
+            arm = _Inl().visit(fresh_copy(arm))
+            ast.fix_missing_locations(arm)
+            if dotted(arm) == f"{VAL}.key":
                 continue
-        if VAL in _names(c) and any(isinstance(x, (ast.IfExp, ast.BoolOp, ast.Compare)) for x in ast.walk(c)):
-            conditional.append(norm_src(c))
-    ok = bool(encoders)
-    r.ob(
-        "R7.1",
-        "expr.py::Expr._compute_serialized constant value encoding",
-        ok,
-        f"the value enters the key only as `{norm_src(plain)}`"
-        + (f" (the encoding `{conditional[0]}` is applied only under a condition on the value, e.g. not for a non-zero complex value with a signed-zero part)" if conditional else "")
-        + "; tuples compare with == and hash(), under which 0.0 and -0.0 (and complex values differing in the sign of a zero part) are the "
-        "same key, so constant(-0.0, x) returns a previously built constant(0.0, x) (or vice versa, depending on history)",
-        loc(rel, plain),
-        sample=dict(rule="R7.1", key_component=norm_src(plain), encoders=encoders, raw_value_present=raw),
-    )
-    if not raw and not encoders:
-        raise AnalysisError("constant key: neither raw value nor an encoder found")
+            n_arm += 1
+            comps_ = arm.elts if isinstance(arm, ast.Tuple) else [arm]
+            direct = [c for c in comps_ if isinstance(c, ast.Call) and ((call_name(c) or "") in INJECTIVE_ENCODERS or (call_name(c) or "").split(".")[-1] in INJECTIVE_ENCODERS)
+                      and any(dotted(a) == VAL for a in c.args)]
+            lossy = [norm_src(c) for c in comps_ if isinstance(c, ast.Call) and ((call_name(c) or "").split(".")[-1] in INJECTIVE_ENCODERS) and not any(dotted(a) == VAL for a in c.args)
+                     and any(VAL in _names(a) for a in c.args)]
+            r.ob("R7.1", f"expr.py::Expr._compute_serialized constant value encoding (arm {n_arm})", bool(direct),
+                 f"the value enters the key as `{norm_src(arm)[:160]}`" + (f": the encoding `{lossy[0]}` is applied to a conversion of the value, not to the value - a conversion such as "
+                                                                         "float() maps different numpy.longdouble values to one key" if lossy else "")
+                 + "; without an injective text of the value itself, values that compare equal (0.0 and -0.0) or convert equal share one constant", loc(rel, arms[0]))
+            has_type_ = any(f"type({VAL})" in norm_src(c) for c in comps_)
+            r.ob("R7.2", f"expr.py::Expr._compute_serialized constant key contains the value's type (arm {n_arm})", has_type_,
+                 "the key of a constant no longer contains type(value): 1, 1.0 and True hash and compare equal", loc(rel, arms[0]))
+        if n_arm == 0:
+            raise AnalysisError("constant key: value component not recognised")
+        ve = None
+    elif len(val_elts) != 1:
+        raise AnalysisError("constant key: value component not recognised")
+    else:
+        ve = val_elts[0]
+    if ve is not None:
+        # a helper function that builds the value part of the key is followed into its body
+        if isinstance(ve, ast.Call) and isinstance(ve.func, ast.Name) and len(ve.args) == 1 and dotted(ve.args[0]) == VAL and repo.has(rel, ve.func.id):
+            helper = repo.func(rel, ve.func.id)
+            hp = [a.arg for a in helper.args.args]
+            body = [st for st in helper.body if not (isinstance(st, ast.Expr) and isinstance(st.value, ast.Constant))]
+            expr_ = None
+            if len(hp) == 1 and len(body) == 1 and isinstance(body[0], ast.Return):
+                expr_ = body[0].value
+            elif len(hp) == 1 and len(body) == 2 and isinstance(body[0], ast.If) and not body[0].orelse and len(body[0].body) == 1 \
+                    and isinstance(body[0].body[0], ast.Return) and isinstance(body[1], ast.Return):
+                expr_ = ast.IfExp(test=body[0].test, body=body[0].body[0].value, orelse=body[1].value)
+            if expr_ is None:
+                raise AnalysisError(f"constant key: helper {ve.func.id} is not a single-expression function")
+            from sa.core import fresh_copy, _Renamer
+            ve = _Renamer({hp[0]: VAL}).visit(fresh_copy(expr_))
+            ast.fix_missing_locations(ve)
+            for n_ in ast.walk(ve):
+                n_.lineno = getattr(helper, "lineno", 0)
+        plain = ve.orelse if isinstance(ve, ast.IfExp) else ve
+        if isinstance(ve, ast.IfExp):
+            ok = dotted(ve.body) == f"{VAL}.key" and f"isinstance({VAL}, Expr)" in norm_src(ve.test)
+            r.ob("R7.2", "expr.py::Expr._compute_serialized constant value that is an expression uses its key", ok, f"`{norm_src(ve)}`", loc(rel, ve))
+        comps = plain.elts if isinstance(plain, ast.Tuple) else [plain]
+        has_type = any(f"type({VAL})" in norm_src(c) for c in comps)
+        r.ob("R7.2", "expr.py::Expr._compute_serialized constant key contains the value's type", has_type,
+             "the key of a constant no longer contains type(value): 1, 1.0 and True hash and compare equal", loc(rel, plain))
+        encoders = []
+        conditional = []
+        raw = False
+        repo_encoders = []
+        for c in comps:
+            # an encoder defined in the repository itself (toidentifier): the key is as injective as that function
+            if isinstance(c, ast.Call) and isinstance(c.func, ast.Name) and c.func.id == "toidentifier" and len(c.args) == 1 and dotted(c.args[0]) == VAL and repo.has(rel, "toidentifier"):
+                repo_encoders.append(c.func.id)
+        if repo_encoders:
+            from rules.C05 import check_toidentifier
+
+            before = len(r.obligations)
+            check_toidentifier(r, repo, "R7.1")
+            if len(r.obligations) == before:
+                raise AnalysisError("constant key uses toidentifier but its injectivity obligations were not generated")
+            encoders += repo_encoders
+        for c in comps:
+            if isinstance(c, ast.Name) and c.id == VAL:
+                raw = True
+                continue
+            if f"type({VAL})" in norm_src(c):
+                continue
+            # an encoding counts only when it is applied unconditionally: the tuple element itself is the encoder call
+            if isinstance(c, ast.Call):
+                nm = call_name(c) or ""
+                last = nm.split(".")[-1]
+                on_value = any(VAL in _names(a) for a in c.args) or (isinstance(c.func, ast.Attribute) and VAL in _names(c.func.value))
+                if (nm in INJECTIVE_ENCODERS or last in INJECTIVE_ENCODERS) and on_value and not any(isinstance(x, (ast.IfExp, ast.BoolOp)) for x in ast.walk(c)):
+                    encoders.append(nm)
+                    continue
+            if VAL in _names(c) and any(isinstance(x, (ast.IfExp, ast.BoolOp, ast.Compare)) for x in ast.walk(c)):
+                conditional.append(norm_src(c))
+        ok = bool(encoders)
+        r.ob(
+            "R7.1",
+            "expr.py::Expr._compute_serialized constant value encoding",
+            ok,
+            f"the value enters the key only as `{norm_src(plain)}`"
+            + (f" (the encoding `{conditional[0]}` is applied only under a condition on the value, e.g. not for a non-zero complex value with a signed-zero part)" if conditional else "")
+            + "; tuples compare with == and hash(), under which 0.0 and -0.0 (and complex values differing in the sign of a zero part) are the "
+            "same key, so constant(-0.0, x) returns a previously built constant(0.0, x) (or vice versa, depending on history)",
+            loc(rel, plain),
+            sample=dict(rule="R7.1", key_component=norm_src(plain), encoders=encoders, raw_value_present=raw),
+        )
+        if not raw and not encoders:
+            raise AnalysisError("constant key: neither raw value nor an encoder found")
 
     # ---- symbol branch
     sv = rvalue(branches["symbol"])
